@@ -75,7 +75,12 @@ impl Monitor for C03 {
         let parts = ctx.case_seed(case);
         let mut rng = Rng::from_parts(&parts);
         let policy = POLICIES[(case % 5) as usize];
-        let profile = *rng.pick(&[Profile::Gc, Profile::Gc, Profile::Gc, Profile::Idle, Profile::Idle, Profile::Delete, Profile::Mixed, Profile::Dense]);
+        let mut profile = *rng.pick(&[Profile::Gc, Profile::Gc, Profile::Gc, Profile::Idle, Profile::Idle, Profile::Delete, Profile::Mixed, Profile::Dense]);
+        // under flush-per-call policies the write cursor is known: aim entries (control
+        // entries included) at block and file ends on a third of those cases
+        if policy.always() && rng.chance(1, 3) {
+            profile = Profile::Align;
+        }
         let nq = rng.usize(1, 4);
         let nops = if profile == Profile::Dense { rng.usize(20, 60) } else { rng.usize(8, 40) };
         let live_dir = ctx.scratch.sub("c03-live");
